@@ -25,6 +25,7 @@ def parseOp (toks : List String) : Option FOp :=
   | ["readat", h, n, off] => do pure (.readAt (← parseNat h) (← parseNat n) (← parseInt off))
   | ["write", h, b] => do pure (.write (← parseNat h) (← bytesOfHex b))
   | ["writestring", h, b] => do pure (.write (← parseNat h) (← bytesOfHex b))   -- WriteString(s) = Write([]byte(s))
+  | ["readfrom", h, b] => do pure (.write (← parseNat h) (← bytesOfHex b))      -- io.Copy(f, r), non-empty r, one buffer = Write
   | ["writeat", h, b, off] => do pure (.writeAt (← parseNat h) (← bytesOfHex b) (← parseInt off))
   | ["trunc", h, n] => do pure (.truncate (← parseNat h) (← parseInt n))
   | ["seek", h, off, wh] => do pure (.seek (← parseNat h) (← parseInt off) (← parseNat wh))
